@@ -136,7 +136,9 @@ class StubKDTree:
             s = s + d * d
         return z3.simplify(s) if z3.is_expr(s) else z3.RealVal(s)
 
-    def query(self, X, k=1, **kw):
+    def query(self, X, k=1, distance_upper_bound=None, **kw):
+        """distance_upper_bound=B: only neighbours strictly closer than B are returned; missing ones are
+        reported with index n and infinite distance (scipy's documented behaviour)"""
         X = _objarr(X)
         single = X.ndim == 1
         X2 = np.atleast_2d(X)
@@ -175,8 +177,13 @@ class StubKDTree:
                     )
                 v = eng.concretize_int(L)
                 chosen.append(v)
-                idx[r, c] = v
-                dist[r, c] = DistSq(d2[v])
+                dv = DistSq(d2[v])
+                if distance_upper_bound is not None and not bool(dv < distance_upper_bound):
+                    idx[r, c] = self.n
+                    dist[r, c] = float("inf")
+                else:
+                    idx[r, c] = v
+                    dist[r, c] = dv
         if ks == 1 and not isinstance(k, (list, tuple)):
             idx = idx[:, 0]
             dist = dist[:, 0]
